@@ -206,6 +206,7 @@ PROFILES = {
     'mutate': {'mutate': True, 'p_same_root': 1.0, 'p_crash': 0.0, 'ext': [0, 0, 0, 1], 'builds': [3, 4],
                'p_clean': 0.0, 'p_vers': 0.0, 'raise': 8, 'kinds': ['list_dir', 'walk', 'list_dir', 'is_file', 'read']},
     'refuse': {'refuse': True},
+    'keys': {'keys': True},
     # base histories for fault injection (every eligible library call is a fault point)
     'fault': {'p_crash': 0.1, 'p_clean': 0.1, 'raise': 10, 'ext': [0, 1, 1, 2], 'builds': [2, 3],
               'catch': 80},
@@ -341,8 +342,70 @@ def make_refuse(seed, profile):
     return base
 
 
+KEY_POOL = [None, True, False, 0, 1, 1.0, 2, '1', 'a', '', [], {}, [1], (1,), [1.0], [True], [1, 2], [2, 1], (1, 2),
+            {'a': 1}, {'a': 1.0}, {'a': True}, {'a': None}, {'b': None}, {'a': 1, 'b': 2}, {'b': 2, 'a': 1},
+            {'a': 1, 'b': None}, {1: 'x'}, {'1': 'x'}, {1.0: 'x'}, {True: 'x'}, {'true': 'x'}, {None: 'x'}, {'null': 'x'},
+            [[1], {'a': (1,)}], [(1,), {'a': [1]}], [[1.0], {'a': [True]}], {'a': {'b': [1, {'c': None}]}},
+            {'a': {'b': [1, {'c': None, 'd': None}]}}, 2 ** 63, float(2 ** 63), 'é', [None], [[]]]
+SPELLS = [None, 'bytes', 'pathlike', 'rel', 'dblsep', 'dotdot', 'dot']
+
+
+def make_keys(seed, profile):
+    """Pairs of calls whose identity is (un)equal as JSON values / path spellings (C07): the second call is
+    issued in the same build (duplicate <=> same key) or in the next build (cache hit <=> same key)."""
+    rnd = random.Random('keys:%s' % seed)
+    v = rnd.choice(KEY_POOL)
+    w = rnd.choice([v, v, rnd.choice(KEY_POOL), rnd.choice(KEY_POOL)])
+    shape = rnd.choice(['args', 'kw', 'kwextra', 'both', 'nested'])
+    if shape == 'args':
+        c1, c2 = {'args': [v]}, {'args': [w]}
+    elif shape == 'kw':
+        c1, c2 = {'args': [], 'kw': {'k': v}}, {'args': [], 'kw': {'k': w}}
+    elif shape == 'kwextra':
+        c1, c2 = {'args': [v], 'kw': {'k': w}}, {'args': [v], 'kw': {'k': w, 'j': rnd.choice([None, 0, False])}}
+        if rnd.random() < 0.5:
+            c1, c2 = c2, c1
+    elif shape == 'both':
+        c1, c2 = {'args': [v, w], 'kw': {'k': v}}, {'args': [v, w], 'kw': {'k': v}}
+    else:
+        c1, c2 = {'args': [[v, {'n': w}]]}, {'args': [(v, {'n': w})]}
+    kind = rnd.choice(['sb', 'bf', 'bf'])
+    f1 = 'f0a'
+    f2 = rnd.choice(['f0a', 'f0a', 'f0a', 'f0b'])
+    prog = {'f0a': [{'s': 'write', 'c': 'c1', 'sz': 4}, {'s': 'return'}],
+            'f0b': [{'s': 'write', 'c': 'c1', 'sz': 4}, {'s': 'return'}]}
+    t = rnd.choice(LEAVES)
+
+    def call(c, f, spell=None):
+        st = {'s': kind, 'f': f, 'catch': True}
+        st.update(c)
+        if kind == 'bf':
+            st['p'] = t
+            st['cmp'] = 'HASH'
+            if spell:
+                st['spell'] = spell
+        return st
+    steps = []
+    mode = rnd.choice(['same', 'next', 'next', 'both'])
+    if mode == 'same':
+        steps.append({'op': 'build', 'name': 'B', 'vers': {}, 'root': [call(c1, f1), call(c2, f2, rnd.choice(SPELLS)),
+                                                                      {'s': 'return'}]})
+        steps.append({'op': 'build', 'name': 'B', 'vers': {}, 'root': [call(c2, f2, rnd.choice(SPELLS)), {'s': 'return'}]})
+    elif mode == 'next':
+        steps.append({'op': 'build', 'name': 'B', 'vers': {}, 'root': [call(c1, f1, rnd.choice(SPELLS)), {'s': 'return'}]})
+        steps.append({'op': 'build', 'name': 'B', 'vers': {}, 'root': [call(c2, f2, rnd.choice(SPELLS)), {'s': 'return'}]})
+        steps.append({'op': 'build', 'name': 'B', 'vers': {}, 'root': [call(c1, f1, rnd.choice(SPELLS)), {'s': 'return'}]})
+    else:
+        steps.append({'op': 'build', 'name': 'B', 'vers': {}, 'root': [call(c1, f1), {'s': 'return'}]})
+        steps.append({'op': 'build', 'name': 'B', 'vers': {}, 'root': [call(c2, f2, rnd.choice(SPELLS)), call(c1, f1),
+                                                                      {'s': 'return'}]})
+    return {'id': '%s-%d' % (profile, seed), 'cache': ['k'], 'universe': UNIVERSE, 'prog': prog, 'steps': steps}
+
+
 def make_scenario(seed, profile='general'):
     P = PROFILES[profile]
+    if P.get('keys'):
+        return make_keys(seed, profile)
     if P.get('refuse'):
         return make_refuse(seed, profile)
     if P.get('structured') and seed % 2 == 1:
